@@ -233,7 +233,6 @@ class VTKWriter:
                 fieldsToWrite[field] = fieldRecord
 
             if len(self.spheres) > 0:
-                nnodes = self.mesh.coords.shape[0]
                 vals = np.zeros( (nnodes,) )
                 vals = np.hstack( (vals, np.array(self.sphereRadii) ) )
                 fieldsToWrite['sphere_radius'] = self.VTKFieldRecord(vals.reshape(vals.shape[0],1),
